@@ -3,7 +3,7 @@ from . import common as K
 from . import stor as S
 
 META = {
-    "level": "partial",
+    "level": "proof",
     "technique": ("Lean 4 fault-aware writer model (every file operation gets ok|err|short n) with a kernel-checked witness for the "
                   "current failure handling and a theorem for a repaired one + go/ast fact tie + correspondence on real runs with "
                   "strace-injected EIO (write, fsync; single and double) and RLIMIT_FSIZE short writes"),
@@ -103,7 +103,7 @@ def run(ctx):
         k = " ".join(t[2:4]) if len(t) > 3 else "?"
         scen[k] = scen.get(k, 0) + 1
     return K.finish(
-        ctx, "partial",
+        ctx, "proof",
         rule=("scenarios = base histories (three synced batches, a victim region, two more synced batches, Close, fresh Load) x fault: "
               "EIO injected by strace at the N-th write syscall for every N of the run, at the N-th fsync, at two writes, or a short "
               "write by RLIMIT_FSIZE leaving K in {0,1,15,16,17,100,400} more bytes; each scenario is one traced run of the real "
